@@ -101,7 +101,9 @@ func execCalls(watFile string, fresh bool) int {
 	}
 	ninst := 0
 	var pat []byte
-	if mem := mod.Memory(); mem != nil {
+	hasMem := strings.Contains(string(src), "(memory")
+	if hasMem {
+		mem := mod.Memory()
 		pat = make([]byte, mem.Size(ctx))
 		for i := range pat {
 			pat[i] = patternByte(i)
@@ -131,7 +133,7 @@ func execCalls(watFile string, fresh bool) int {
 			}
 			args = append(args, v)
 		}
-		memMode := f[1] == "m"
+		memMode := f[1] == "m" && hasMem
 		if memMode {
 			if !mod.Memory().Write(ctx, 0, pat) {
 				return "INFRA cannot reset memory"
